@@ -219,8 +219,14 @@ func searchMode(t *testing.T) {
 			rep.Samples = append(rep.Samples, map[string]any{"seed": seed, "config": cfg, "events": len(res.events), "steps": res.Steps, "first_events": head(res.events, 25)})
 		}
 		if len(res.Violations) > 0 {
-			for _, v := range res.Violations {
+			for vi, v := range res.Violations {
 				vv := v
+				if vi > 0 && cfg.Focus != "" && v.Prop != cfg.Focus {
+					// the run went on after an earlier violation (it only stops for the focus
+					// property): what other properties' oracles say about the rest of it may be a
+					// mere consequence of that first defect and is not passed on to their owners
+					continue
+				}
 				key := v.Prop + "|" + v.Class + "|" + cfg.Engine
 				if seenViol[key] {
 					rep.RepeatViolations++
